@@ -90,8 +90,51 @@ Section Render.
         if is_nil parts then [tk TIdent k_us l] else parts
     end.
 
-  Definition ctx_toks (c : ctx_sub) (l : N) : list token := [].
-  Definition ctx_dl (c : ctx_sub) : N := 0.
+  (* nested actions "1@0 2@1" *)
+  Definition nested_toks (acts : list (N * N)) (l : N) : list token :=
+    concat (map (fun a => [tk TInt (digits (fst a)) l; tk TAt [64] l; tk TInt (digits (snd a)) l]) acts).
+
+  (* context rules over glyph sequences: "A B -> 1@0, C -> " *)
+  Fixpoint ctx1_toks (mm : list (N * (list N * actions))) (first : bool) (l : N) : list token :=
+    match mm with
+    | [] => []
+    | (g, (inp, acts)) :: r =>
+        (if first then [] else [t_comma l]) ++ gl_toks (g :: inp) l ++ [t_arrow l] ++ nested_toks acts l
+          ++ ctx1_toks r false l
+    end.
+
+  Definition t_colon (l : N) := tk TColon [58] l.
+  Definition cname (i : N) : list N := 99 :: digits i.          (* "c<i>" *)
+  Definition class_toks (c : N) (l : N) : list token :=
+    if c =? 0 then [t_colon l; t_colon l] else [t_colon l; tk TIdent (cname c) l; t_colon l].
+  Fixpoint ctx2_toks (mm : list (N * (list N * actions))) (first : bool) (l : N) : list token :=
+    match mm with
+    | [] => []
+    | (c, (inp, acts)) :: r =>
+        (if first then [] else [t_comma l]) ++ concat (map (fun x => class_toks x l) (c :: inp))
+          ++ [t_arrow l] ++ nested_toks acts l ++ ctx2_toks r false l
+    end.
+  (* class definitions, one per line *)
+  Fixpoint defcls_toks (kw : list N) (classes : list (list N)) (i : N) (l : N) : list token :=
+    match classes with
+    | [] => []
+    | gl :: r =>
+        [tk TIdent kw l; t_colon l; tk TIdent (cname i) l; t_colon l; tk TEqual [61] l] ++ gs_toks gl l
+          ++ [tk TEOL [10] l] ++ defcls_toks kw r (i + 1) (l + 1)
+    end.
+  Definition t_slash (l : N) := tk TSlash [47] l.
+
+  Definition ctx_dl (c : ctx_sub) : N :=
+    match c with SeqCtx2 _ classes _ => N.of_nat (length classes) | _ => 0 end.
+  Definition ctx_toks (c : ctx_sub) (l : N) : list token :=
+    match c with
+    | SeqCtx1 cov rules => ctx1_toks (flat_rules (combine cov rules)) true l
+    | SeqCtx2 cov classes rules =>
+        let l' := l + N.of_nat (length classes) in
+        defcls_toks k_class classes 1 l ++ [t_slash l'] ++ gl_toks cov l' ++ [t_slash l']
+          ++ ctx2_toks (flat_rules (index_from 0 rules)) true l'
+    | SeqCtx3 input acts => concat (map (fun s => gs_toks s l) input) ++ [t_arrow l] ++ nested_toks acts l
+    end.
 
   Definition sub_toks (s : subtable) (l : N) : list token :=
     match s with
@@ -110,15 +153,22 @@ Section Render.
     | Gpos1_2 cov adj => entries_toks value_toks (combine cov adj) true l
     end.
 
+  (* lines a subtable's own text spans beyond its first (class definitions) *)
+  Definition sub_dl (s : subtable) : N := match s with Ctx c => ctx_dl c | _ => 0 end.
+
   (* subtables; each " ||\n\t" starts a new line *)
   Fixpoint subs_toks (hdr : N -> list token) (subs : list subtable) (first : bool) (l : N) : list token :=
     match subs with
     | [] => []
     | s :: r =>
-        (if first then hdr l ++ sub_toks s l ++ subs_toks hdr r false l
-         else [tk TOr [124; 124] l; tk TEOL [10] l] ++ sub_toks s (l + 1) ++ subs_toks hdr r false (l + 1))
+        (if first then hdr l ++ sub_toks s l ++ subs_toks hdr r false (l + sub_dl s)
+         else [tk TOr [124; 124] l; tk TEOL [10] l] ++ sub_toks s (l + 1)
+                ++ subs_toks hdr r false (l + 1 + sub_dl s))
     end.
-  Definition subs_dl (subs : list subtable) : N := N.of_nat (length subs) - 1.
+  Fixpoint subs_lines (subs : list subtable) : N :=
+    match subs with [] => 0 | s :: r => 1 + sub_dl s + subs_lines r end.
+  Definition subs_dl (subs : list subtable) : N :=
+    match subs with [] => 0 | s :: r => sub_dl s + subs_lines r end.
 
   Definition hdr_toks (kw : list N) (lk : lookup) (l : N) : list token :=
     [tk TIdent (kw ++ digits (l_type lk)) l; tk TColon [58] l] ++ flag_toks (l_flags lk) l.
